@@ -58,6 +58,11 @@ structure WState where
   status : Status := .unset
   tasks : List (TaskKey × Nat) := []
   reruns : List (List Nat) := []
+  /-- ghost (not part of the implementation's state, never read by a model function, not printed
+      by the driver): which record published which context snapshot on which transition.  The
+      implementation keeps only the last one per record (`ctxs.out` is overwritten); the log is what
+      the C06 invariant is stated over. -/
+  pubLog : List (Nat × TransId × Nat) := []
   deriving Repr, Inhabited
 
 /-- error-log entry, reduced to what the correspondence check compares: the exception class
